@@ -1,6 +1,8 @@
 use crate::{BSVErrors, HARDENED_KEY_OFFSET, KDF, XPRIV_VERSION_BYTE};
 use byteorder::{BigEndian, ReadBytesExt, WriteBytesExt};
 use getrandom::*;
+#[cfg(bsv_verif)]
+use crate::verif_hooks::getrandom;
 use k256::SecretKey;
 use std::{
     io::{Cursor, Read, Write},
